@@ -97,7 +97,10 @@ pub fn from_unixtime_us(
     mut args: Args,
     _return_type: &TypeScheme,
 ) -> Result<Value, Box<RuntimeErrorKind>> {
-    let us = quantity_arg!(args).unsafe_value().to_f64() as i64;
+    // The microsecond count comes out of a floating point unit conversion (e.g. from
+    // milliseconds): round instead of truncating, so that 1377788032830999.9 µs is
+    // read as ...831000 µs and not as the microsecond before.
+    let us = quantity_arg!(args).unsafe_value().to_f64().round() as i64;
 
     let dt = Timestamp::from_microsecond(us)
         .map_err(|_| RuntimeErrorKind::DateTimeOutOfRange)?
